@@ -96,4 +96,11 @@ class HH(Channel):
 
 
 def _vtrap(x, y):
-    return x / (save_exp(x / y) - 1.0)
+    """Return `x / (exp(x / y) - 1)`, which has the limit `y` at `x = 0`."""
+    z = x / y
+    is_small = jnp.abs(z) < 1e-6
+    # Evaluate the quotient away from zero only (keeps values and gradients finite).
+    z_safe = jnp.where(is_small, 1.0, z)
+    return jnp.where(
+        is_small, y * (1.0 - z / 2.0), y * z_safe / (save_exp(z_safe) - 1.0)
+    )
